@@ -28,17 +28,24 @@ THEOREMS = ["XV.Props.C12." + t for t in (
     "unrep_as_charref", "formatter_terminates", "formatter_hangs_on_trailing_high_surrogate",
     "cdata_split_preserves", "cdata_asis_loses_terminator", "table_faithful", "bestfit_breaks_wellformedness",
     "ensureValid_iff_legal", "serialize_content_reparses", "serialize_idempotent", "serialize_refuses_illformed",
-    "serializer_emits_illformed")]
+    "serializer_emits_illformed", "nsfixup_innermost_wins", "nsfixup_binds_all", "nsfixup_no_redundant_declaration")]
 RULE = ("formatter: strings of 0-14 units drawn from hazard alphabets (markup characters, CR/TAB/LF, ]]>, NEL/LSEP, "
         "C0/C1 controls, Latin-1, non-Latin-1, supplementary pairs, lone surrogates) plus a few > kTmpBufSize strings, "
         "x 4 escape modes x 3 unrep modes x 8 intrinsic encodings (+3 ICU, spec-judged only) x XML 1.0/1.1; "
         "trees: build scripts of 1-12 nodes (elements with/without namespaces and prefixes, attributes, text, CDATA, "
         "comments, PIs, doctype) with one hazard class per tree mostly, and parsed documents with DTD entities / default "
-        "attributes, x 11 encodings x feature sets x XML version; non-trivial = contains at least one hazard unit or a "
+        "attributes, x 11 encodings x feature sets x XML version; namespace-shadowing trees (depth 2-5, 2-3 prefixes incl. the empty "
+        "one x 2-3 namespaces, no xmlns attributes, U1>U2>U1 on one prefix in most trees); long-run trees around the transcoder "
+        "block sizes via write() and writeToString(); non-trivial = contains at least one hazard unit or a "
         "namespace; distinct by case text")
 ASSUMPTIONS = ["the transcoder behind the formatter is modelled at UTF-16 unit level (canTranscodeTo + unit-wise / pair-wise "
                "transcodeTo); byte-level exactness of the intrinsic transcoders is C05",
-               "kTmpBufSize blocking of handleUnEscapedChars is not observable (checked with long strings)",
+               "the kTmpBufSize block loop of handleUnEscapedChars is modelled as one transcoding of the run (each call eats >= 1 unit, "
+               "what is not eaten is offered again); this is NOT proved but checked every run against the Spec with runs of 1/2/3/4-byte "
+               "characters around 4096 pairs / 5461 / 8192 / 16384 units in UTF-8, UTF-16, ISO-8859-1, US-ASCII, IBM1047, windows-1252, "
+               "through XMLFormatter and through DOMLSSerializer write() / writeToString()",
+               "namespace fix-up is modelled (XV.Model.NsFixup) for API-built trees whose elements all have a namespace and that carry no "
+               "explicit xmlns attributes; null-namespace elements, explicit declarations, attributes without prefix: round trip only",
                "format-pretty-print, canonical-form, DOMLSSerializerFilter, file/string targets: not modelled (pretty printing off)",
                "XML 1.1 documents are only serialised with xml-declaration=true (the version must travel with the bytes)"]
 TRUSTED = ["XV.Spec.Unescape (XML 1.0/1.1 sections 2.2, 2.4, 2.11, 3.3.3, 4.1, 4.6) as transcribed",
@@ -155,7 +162,7 @@ def _run_chunk(lines, timeout, env=None):
             out += got[:n_ok] + ["NO-OUTPUT"] * (len(lines) - pos - n_ok); pos = len(lines)
     return out, errs
 
-def run_hx(lines, timeout=600, retry_hangs=True, env=None, per_proc=40):
+def run_hx(lines, timeout=600, retry_hangs=True, env=None, per_proc=500):
     if not lines: return [], ""
     common.build_harness("hx_ser2")
     n = max(1, min(common.NCPU, (len(lines) + per_proc - 1) // per_proc))
@@ -216,13 +223,20 @@ def rand_units(r, classes, n):
 
 ALLC = ["plain", "markup", "ws", "cdend", "eol11", "ctl11", "latin", "nonlatin", "supp", "bestfit"]
 
+# (encoding, the units of one character, tag)
+LONG_VARIANTS = [("UTF-8", [0x61], "1"), ("UTF-8", [0xE9], "2"), ("UTF-8", [0x4E2D], "3"), ("UTF-8", [0xD83D, 0xDE00], "pair"),
+                 ("UTF-16", [0x61], "1"), ("UTF-16", [0x4E2D], "3"), ("UTF-16", [0xD83D, 0xDE00], "pair"),
+                 ("ISO-8859-1", [0xE9], "2"), ("US-ASCII", [0x61], "1"), ("IBM1047", [0x61], "1"), ("windows-1252", [0x20AC], "3")]
+# where one transcodeTo call cannot take everything it is offered: all four lengths around these bounds every run
+RELEVANT = {"UTF-8": ((5461, "3"), (8192, "2"), (4096, "pair")), "UTF-16": ((8192, "1"), (8192, "3"), (4096, "pair"))}
+
 def gen_formatter_cases(ctx):
     r = ctx.rng
     th = ctx.thorough()
     cases = []      # (line, meta)
-    def add(enc, v11, esc, unrep, units, op="FB"):
+    def add(enc, v11, esc, unrep, units, op="FB", model=True):
         cases.append(("%s %s %d %d %d %d %s" % (op, enc, v11, fx_bits(), esc, unrep, hx(units)),
-                      {"enc": enc, "v11": v11, "esc": esc, "unrep": unrep, "units": units, "op": op}))
+                      {"enc": enc, "v11": v11, "esc": esc, "unrep": unrep, "units": units, "op": op, "model": model}))
     # every single unit of interest, every mode, every encoding (structured part)
     singles = sorted(set(MARKUP + WS + EOL11 + CTL11 + LATIN + NONLATIN + BESTFIT + PLAIN + [0x7E, 0x7F, 0xA0, 0x152, 0x2122, 0x20AC]))
     for enc in INTRINSIC:
@@ -250,10 +264,25 @@ def gen_formatter_cases(ctx):
             for unrep in ((0, 1, 2) if enc == "UTF-8" else (1,)):
                 add(enc, 0, esc, unrep, [0x61, 0xD83D])
         add(enc, 0, 3, 1, [0xD83D, 0x61]); add(enc, 0, 3, 1, [0xDE00, 0x61]); add(enc, 0, 3, 1, [0xD83D, 0x26])
-    # longer than kTmpBufSize, with a pair across the block boundary
-    for enc in (INTRINSIC if th else ["UTF-8", "ISO-8859-1"]):
+    # Runs around the block sizes of handleUnEscapedChars: it hands transcodeTo at most kTmpBufSize (16384) UNITS and
+    # transcodeTo fills at most kTmpBufSize BYTES, so one call eats 16384 one-byte, 8192 two-byte (UTF-16: every unit),
+    # 5461 three-byte characters or 4096 surrogate pairs; what is offered but not eaten must come back in the next
+    # call.  Generated EVERY run, all judged by the Spec (reference escaping + reader); the model (quadratic in the
+    # run length) is compared on a few of them.
+    for enc, unit, tag in LONG_VARIANTS:
+        bounds = [4096, 8192] if tag == "pair" else [5461, 8192, 16384]
+        for b in bounds:
+            deltas = (-1, 0, 1, 2) if (th or (b, tag) in (RELEVANT.get(enc, ()))) else (r.choice([-1, 0]), 1)
+            for d in deltas:
+                n = b + d
+                run = unit * n
+                esc, unrep = r.choice([(3, 1), (3, 1), (2, 1), (0, 1), (0, 0), (3, 0), (1, 2)])
+                add(enc, 0, esc, unrep, run, model=(d == 1 and b in (5461, 8192, 4096) and (th or r.chance(1, 3))))
+    for enc in (INTRINSIC if th else ["UTF-8", "UTF-16", "ISO-8859-1"]):
+        # an escaped character / an unrepresentable one / a pair right at the 16384-unit hand-over, then more text
         base = [0x61] * 16383 + [0xD83D, 0xDE00] + [0x26, 0x20AC] * 20 + [0x62] * 300
-        add(enc, 0, 3, 1, base)
+        add(enc, 0, 3, 1, base, model=(enc != "UTF-16" or th))
+        add(enc, 0, 3, 1, [0x4E2D] * 8193 + [0x26] + [0x4E2D] * 8193, model=False)
         if th: add(enc, 0, 0, 1, [0x61] * 40000)
     # ICU encodings: judged by the Spec only
     for enc in ICU:
@@ -263,6 +292,16 @@ def gen_formatter_cases(ctx):
     for enc in ("ISO-8859-1", "UTF-8"):
         add(enc, 0, 3, 1, [0x61, 0x20AC], "FX"); add(enc, 0, 3, 1, [0x61, 0x62], "FX"); add(enc, 0, 3, 1, [0x61, 0xD83D, 0xDE00], "FX")
     return cases
+
+def brief(units):
+    """a string of units for a message: in full when short, else as runs"""
+    if len(units) <= 40: return hx(units)
+    runs = []; i = 0
+    while i < len(units) and len(runs) < 8:
+        j = i
+        while j < len(units) and units[j] == units[i]: j += 1
+        runs.append("%x x%d" % (units[i], j - i) if j - i > 1 else "%x" % units[i]); i = j
+    return "%d units [%s%s]" % (len(units), ", ".join(runs), ", …" if i < len(units) else "")
 
 def canon_impl_format(enc, o):
     """harness line -> model vocabulary (bytes decoded into units)"""
@@ -278,7 +317,7 @@ def canon_impl_format(enc, o):
 def formatter_correspondence(ctx):
     cases = gen_formatter_cases(ctx)
     lines = [c[0] for c in cases]
-    mlines = [l for l, m in cases if m["enc"] in INTRINSIC and m["op"] == "FB"]
+    mlines = [l for l, m in cases if m["enc"] in INTRINSIC and m["op"] == "FB" and m.get("model", True)]
     mo = dict(zip(mlines, run_model(mlines)))
     io, err = run_hx(lines, retry_hangs=False)
     # a time-out the model does not predict may be the machine: those cases run once more, alone, with a longer limit
@@ -288,6 +327,7 @@ def formatter_correspondence(ctx):
         for i, o in zip(idx, again): io[i] = o
     stats = {"cases": len(lines), "model_compared": 0, "disagree": 0, "spec_judged": 0, "outcomes": {}}
     rd_lines, rd_meta = [], []
+    es_lines, es_meta = [], []
     corr_first = None
     viol = {}
     def add_v(key, what, replay):
@@ -316,16 +356,42 @@ def formatter_correspondence(ctx):
             if mo[line] != canon:
                 stats["disagree"] += 1
                 if corr_first is None: corr_first = (line, mo[line], canon)
+        # The executable Spec of the formatter: the bytes must be encode(reference escaping of the input)
+        # (XV.Spec.Escaping.escUnits, proved equal to the model's output and readable back).  Judged for every
+        # well-formed input the transcoder gives back faithfully; under UnRep_Fail/Replace only when all is representable.
+        sc_in = scalars(m["units"])
+        if (m["op"] == "FB" and m["enc"] in INTRINSIC and sc_in is not None and kind in ("ok", "exc", "undecodable")
+                and not any(c in bestfit_units(m["enc"]) for c in m["units"])
+                and (m["unrep"] == 1 or all(representable(m["enc"], c) for c in sc_in))):
+            es_lines.append("ES %s %d %d %d %s" % (m["enc"], m["v11"], fx_bits(), m["esc"], hx(m["units"])))
+            es_meta.append((m, rep, canon))
         # the property, judged by the Spec: legal text written with Char/Attr escapes and char refs reads back unchanged
-        if m["esc"] in (2, 3) and m["unrep"] == 1 and legal(bool(m["v11"]), m["units"]) and len(m["units"]) < 200:
+        if m["esc"] in (2, 3) and m["unrep"] == 1 and legal(bool(m["v11"]), m["units"]):
             if us is None:
                 if kind not in ("hang", "CRASH", "undecodable"):
-                    add_v("formatter-refuses-legal-text", "legal text %s not written (%s)" % (hx(m["units"]), canon[:80]), rep)
+                    add_v("formatter-refuses-legal-text", "legal text %s not written (%s)" % (brief(m["units"]), canon[:80]), rep)
             else:
                 sc_out = scalars(us)
                 if sc_out is None or not all(representable(m["enc"], c) for c in sc_out):
-                    add_v("formatter-unrepresentable-written", "output contains a character outside %s: %s" % (m["enc"], hx(us)[:200]), rep)
+                    add_v("formatter-unrepresentable-written", "on %s the output (%s) %s" % (brief(m["units"]), brief(us),
+                          "is not well-formed UTF-16 (a surrogate pair was cut)" if sc_out is None else "contains a character outside " + m["enc"]), rep)
                 rd_lines.append("RD %d %d %s" % (m["v11"], 1 if m["esc"] == 2 else 0, hx(us))); rd_meta.append((m, rep, us))
+    if es_lines:
+        eo = run_model(es_lines)
+        stats["spec_escaping_judged"] = len(es_lines)
+        for (m, rep, canon), want in zip(es_meta, eo):
+            if canon != want:
+                a, b = unhx(canon.split()[1]) if canon.startswith("ok ") else None, unhx(want.split()[1])
+                if a is None:
+                    detail = "the formatter ends with '%s' although every character can be written" % canon[:60]
+                else:
+                    k = next((i for i in range(min(len(a), len(b))) if a[i] != b[i]), min(len(a), len(b)))
+                    detail = ("it wrote %d units where the reference escaping has %d; first difference at unit %d (wrote %s, expected %s)" %
+                              (len(a), len(b), k, hx(a[k:k + 6]), hx(b[k:k + 6])))
+                add_v("formatter-output-differs-from-reference-escaping",
+                      "XMLFormatter (%s, XML %s, esc=%d, unrep=%d) on %s: %s" % (
+                          m["enc"], "1.1" if m["v11"] else "1.0", m["esc"], m["unrep"], brief(m["units"]), detail),
+                      dict(rep, spec=want[:300]))
     if rd_lines:
         ro = run_model(rd_lines)
         stats["spec_judged"] = len(rd_lines)
@@ -340,7 +406,7 @@ def formatter_correspondence(ctx):
                        "escape-insufficient:" + ("attr" if m["esc"] == 2 else "text"))
                 add_v(key, "XMLFormatter (%s, XML %s, %s) writes %s as %s, which an XML processor reads back as %s" % (
                     m["enc"], "1.1" if m["v11"] else "1.0", "AttrEscapes" if m["esc"] == 2 else "CharEscapes",
-                    hx(m["units"]), hx(us)[:160], o[:160]), dict(rep, spec=o[:200]))
+                    brief(m["units"]), hx(us)[:160], o[:160]), dict(rep, spec=o[:200]))
     for key, (what, replay) in viol.items():
         ctx.violations.append({"key": key, "concrete": True, "what": what, "replay": replay})
     if corr_first and not any(v["key"].startswith(("escape-insufficient", "formatter-")) and v["key"] not in KNOWN_KEYS for v in ctx.violations):
@@ -482,34 +548,63 @@ class TreeGen:
                 self.ops.append(("P,%s,%s" if r.chance(4, 5) else "p,%s,%s") % (hx(t), hx(v))); last_chars = False
         return self
 
+def narrow(units):
+    """hx::narrow of the harness (with its blanks -> '_')"""
+    return "".join(("_" if u == 0x20 else chr(u)) if u < 0x80 else "\\u%04x" % u for u in (units or []))
+
 def parse_script(script):
-    """ops of a build script -> list of (kind, units) strings, as the oracle needs them"""
-    out = []; flags = {"nsattr_noprefix": False}
-    bind = {}
-    def note(ns, qn):
+    """ops of a build script -> (list of (kind, units) strings as the oracle needs them, flags).
+    The recipe is replayed on a stack exactly as the harness does, which gives — without looking at any DOM —
+    flags['names']: the expanded names ({namespace}local) of every element and attribute in document order, in the
+    text form the harness prints for the RE-PARSED tree (x=…): the Spec side of the namespace comparison."""
+    out = []; flags = {"nsattr_noprefix": False, "null_ns_elem": False, "prefix_conflict": False}
+    elems = []          # creation order = document order: [ns, local, {attrkey: (ns, local)}, {prefix: {ns}}]
+    stack = []          # indices into elems; stack[0] is the document element
+    def local(qn): return qn[qn.index(0x3A) + 1:] if qn and 0x3A in qn else qn
+    def note(e, ns, qn):
         if ns is not None and qn and 0x3A in qn:
-            bind.setdefault(tuple(qn[:qn.index(0x3A)]), set()).add(tuple(ns))
+            e[3].setdefault(tuple(qn[:qn.index(0x3A)]), set()).add(tuple(ns))
+    def open_elem(ns, qn, nsaware):
+        e = [ns, local(qn) if nsaware else qn, {}, {}]
+        if ns is None: flags["null_ns_elem"] = True
+        note(e, ns, qn)
+        elems.append(e); stack.append(len(elems) - 1)
     for op in script.split(";"):
         a = op.split(",")
         g = lambda i: None if a[i] == "~" else unhx(a[i])
-        if a[0] == "E": out.append(("name", g(2))); note(g(1), g(2))
-        elif a[0] == "L": out.append(("name", g(1)))
+        if a[0] == "E": out.append(("name", g(2))); open_elem(g(1), g(2), True)
+        elif a[0] == "L": out.append(("name", g(1))); open_elem(None, g(1), False)
+        elif a[0] == "U":
+            if len(stack) > 1: stack.pop()
         elif a[0] == "D":
             out.append(("name", g(1)))
             if g(2) is not None: out.append(("pubid", g(2)))
             if g(3) is not None: out.append(("sysid", g(3)))
             if g(2) is not None and g(3) is None: flags["pub_without_sys"] = True
         elif a[0] == "A":
-            out.append(("name", g(2))); out.append(("attr", g(3) or [])); note(g(1), g(2))
+            out.append(("name", g(2))); out.append(("attr", g(3) or []))
             if g(1) is not None and 0x3A not in g(2): flags["nsattr_noprefix"] = True
             if g(1) is not None: out.append(("nsuri", g(1)))
-        elif a[0] == "B": out.append(("name", g(1))); out.append(("attr", g(2) or []))
+            if stack:
+                e = elems[stack[-1]]; note(e, g(1), g(2))
+                e[2][(tuple(g(1)) if g(1) is not None else None, tuple(local(g(2))))] = (g(1), local(g(2)))
+        elif a[0] == "B":
+            out.append(("name", g(1))); out.append(("attr", g(2) or []))
+            if stack: elems[stack[-1]][2][(None, tuple(g(1)))] = (None, g(1))
         elif a[0] == "T": out.append(("text", g(1) or []))
         elif a[0] == "C": out.append(("cdata", g(1) or []))
         elif a[0] in "Mm": out.append(("comment", g(1) or []))
         elif a[0] in "Pp": out.append(("pitarget", g(1))); out.append(("pidata", g(2) or []))
         elif a[0] == "R": out.append(("entref", g(1)))
-    flags["prefix_conflict"] = any(len(v) > 1 for v in bind.values())
+    # the known fix-up defect: ONE element using a prefix for two namespaces (its own name and/or its attributes);
+    # the same prefix re-bound on a descendant is ordinary shadowing and must work
+    flags["prefix_conflict"] = any(len(v) > 1 for e in elems for v in e[3].values())
+    sig = ""
+    for ns, loc, attrs, _ in elems:
+        sig += "|E{" + narrow(ns) + "}" + narrow(loc)
+        for t in sorted("{" + narrow(ans) + "}" + narrow(al) for ans, al in attrs.values()):
+            sig += "|A" + t
+    flags["names"] = sig
     return out, flags
 
 def has_sub(u, p):
@@ -604,11 +699,13 @@ def classify_tree_failure(strings, flags, enc, v11, feat, obs):
             return "illegal-character-emitted:" + k
     if any(any_in(k, unrep) for k in ("name", "pitarget", "comment", "pidata")):
         return "unrepresentable-in-markup-emitted"
-    if d.startswith("element-namespace"):
+    if d.startswith("element-namespace") and flags.get("null_ns_elem"):
         return "nsfixup-default-namespace-undeclaration-lost"
     if flags.get("prefix_conflict") and (("is_already_specified" in f.get("p", "") and "xmlns" in f.get("p", ""))
                                          or d.startswith(("attr-namespace", "element-namespace", "attr-lost", "attr-count"))):
         return "nsfixup-conflicting-prefix"
+    if d.startswith(("element-namespace", "attr-namespace")) or ("x" in f and f["x"] != flags.get("names", f["x"])):
+        return "nsfixup-binding-missing-or-wrong"
     return "roundtrip:" + how + (":" + d.split("_")[0] if d else "")
 
 ENCS_B = INTRINSIC + list(ICU)
@@ -628,6 +725,84 @@ def gen_tree_cases(ctx):
             feat = (1 if r.chance(3, 4) else 0) | 2 | (4 if r.chance(1, 2) else 0) | (8 if r.chance(1, 5) else 0) | 32
             if not v11 and r.chance(1, 4): feat &= ~2
             cases.append(("T %s %d %d %s" % (enc, v11, feat, script), {"enc": enc, "v11": v11, "feat": feat, "script": script, "haz": haz}))
+    return cases
+
+# ------------------------------------------------------------------ namespace shadowing (API-built trees, NO xmlns attributes)
+def gen_ns_shadow_cases(ctx):
+    """Nested elements (depth 2-5, some siblings) whose names and prefixed attributes draw prefixes from a small pool
+    (the empty prefix included) and namespaces from a small pool, so that the same prefix / the default namespace is
+    bound U1 > U2 > U1 over three or more levels in most trees.  Every element has a namespace and no single element
+    uses one prefix for two namespaces (those two situations are the recorded fix-up defects); nothing declares a
+    namespace explicitly: every xmlns in the output comes from the serializer's fix-up."""
+    r = ctx.rng
+    n = 3000 if ctx.thorough() else 260
+    cases = []
+    allp = [[], U("p"), U("q")]; allu = [U("urn:one"), U("urn:two"), U("urn:3")]
+    for i in range(n):
+        pfx = allp[:2 + r.below(2)] if r.chance(3, 4) else [allp[0], allp[2]]
+        uris = allu[:2 + r.below(2)]
+        ops = []; depth = 0; count = [0]
+        def elem(pf, u, attrs=()):
+            count[0] += 1
+            nm = U("e%d" % count[0])
+            ops.append("E,%s,%s" % (hx(u), hx(pf + [0x3A] + nm if pf else nm)))
+            used = {tuple(pf): u} if pf else {}
+            for k, (apf, au) in enumerate(attrs):
+                if tuple(apf) in used and used[tuple(apf)] != au: au = used[tuple(apf)]   # one element, one meaning per prefix
+                used[tuple(apf)] = au
+                ops.append("A,%s,%s,%s" % (hx(au), hx(apf + [0x3A] + U("a%d" % k)), hx(U("v"))))
+        def rand_attrs():
+            nonempty = [x for x in pfx if x]
+            return [(r.choice(nonempty), r.choice(uris)) for _ in range(r.choice([0, 0, 1, 1, 2]))] if nonempty else []
+        if r.chance(2, 3):
+            # a deliberate U1 > U2 > U1 chain on one prefix, optionally with other elements in between and the last use on an attribute
+            pf = r.choice(pfx); u1, u2 = (uris[0], uris[1]) if r.chance(1, 2) else (uris[1], uris[0])
+            elem(pf, u1, rand_attrs()); depth = 1
+            if r.chance(1, 3): elem(r.choice(pfx), r.choice(uris)); depth += 1
+            elem(pf, u2, rand_attrs()); depth += 1
+            if r.chance(1, 3): elem(r.choice([x for x in pfx if x != pf] or pfx), r.choice(uris)); depth += 1
+            if pf and r.chance(1, 3):
+                other = r.choice([x for x in pfx if x != pf] or [pf])
+                elem(other, r.choice(uris) if other != pf else u1, [(pf, u1)])
+            else:
+                elem(pf, u1, rand_attrs())
+            depth += 1
+            if r.chance(1, 2): ops.append("T,%s" % hx(U("leaf")))
+        else:
+            elem(r.choice(pfx), r.choice(uris), rand_attrs()); depth = 1
+        for _ in range(r.below(6)):
+            k = r.below(10)
+            if k < 6 and depth < 5:
+                elem(r.choice(pfx), r.choice(uris), rand_attrs()); depth += 1
+            elif k < 8 and depth > 1:
+                ops.append("U"); depth -= 1
+            else:
+                ops.append("T,%s" % hx(U("t")))
+        script = ";".join(ops)
+        enc = r.choice(["UTF-8", "UTF-8", "UTF-16", "ISO-8859-1", "IBM1047"])
+        feat = r.choice([35, 39, 33, 3])
+        if r.chance(1, 8): enc, feat = "UTF-16", feat | 16
+        cases.append(("T %s 0 %d %s" % (enc, feat, script), {"enc": enc, "v11": 0, "feat": feat, "script": script, "haz": "ns-shadow"}))
+    return cases
+
+# ------------------------------------------------------------------ long runs through DOMLSSerializer (write and writeToString)
+def gen_long_tree_cases(ctx):
+    """text, CDATA and attribute values whose un-escaped runs straddle what one transcodeTo call can take
+    (16384 bytes: 8192 UTF-16 units, 5461 three-byte / 8192 two-byte UTF-8 characters, 4096 pairs)"""
+    r = ctx.rng
+    cases = []
+    variants = [("UTF-16", 16, [0x61], 8192), ("UTF-16", 0, [0x4E2D], 8192), ("UTF-8", 0, [0x4E2D], 5461), ("UTF-8", 0, [0xE9], 8192),
+                ("UTF-8", 0, [0xD83D, 0xDE00], 4096), ("UTF-8", 0, [0x61], 16384), ("ISO-8859-1", 0, [0xE9], 16384),
+                ("US-ASCII", 0, [0x61], 16384), ("UTF-16", 16, [0xD83D, 0xDE00], 4096)]
+    picks = variants if ctx.thorough() else variants[:3] + [variants[3 + r.below(len(variants) - 3)]]
+    for enc, wts, unit, bound in picks:
+        for rep in range(3 if ctx.thorough() else 1):
+            n1, n2, n3 = bound + 1 + r.below(3), bound + r.choice([1, 2, 700]), bound + 1 + r.below(2)
+            script = ";".join(["E,~,%s" % hx(U("r")), "E,~,%s" % hx(U("t")), "T,%s" % hx(unit * n1), "U",
+                               "E,~,%s" % hx(U("u")), "A,~,%s,%s" % (hx(U("k")), hx(unit * n2)), "C,%s" % hx(unit * n3),
+                               "T,%s" % hx(U("tail"))])
+            feat = 35 | wts
+            cases.append(("T %s 0 %d %s" % (enc, feat, script), {"enc": enc, "v11": 0, "feat": feat, "script": script, "haz": "long-run"}))
     return cases
 
 DOCS = [
@@ -670,6 +845,13 @@ def judge_tree(meta, obs):
             return ("undecodable", "output is not a legal %s byte sequence" % meta["enc"])
         if not f.get("p", "").startswith("ok"):
             return ("not-wellformed", f.get("p", "")[:120] + ("" if can else " (tree not expressible: %s — must be refused)" % why))
+        if "script" in meta and "x" in f and f["x"] != flags["names"]:
+            # Spec-judged: the expanded names the construction recipe states vs those of the re-parsed tree
+            want, got = flags["names"].split("|"), f["x"].split("|")
+            k = next((i for i in range(min(len(want), len(got))) if want[i] != got[i]), min(len(want), len(got)))
+            return ("expanded-names", "node %d was built as %s but re-parses as %s%s" % (
+                k, want[k] if k < len(want) else "(none)", got[k] if k < len(got) else "(none)",
+                "" if can else " (tree not expressible: %s — must be refused)" % why))
         if f.get("q") != "1":
             return ("not-equal", f.get("d", "") + ("" if can else " (tree not expressible: %s — must be refused)" % why))
         if f.get("a") != "same":
@@ -683,6 +865,9 @@ def judge_tree(meta, obs):
 
 def shrink_candidates(cur):
     cands = []
+    if len(cur) > 2:                   # jump: the document element with ONE of the content nodes / attributes
+        for i in range(1, len(cur)):
+            if cur[i][0] not in "ELU": cands.append([cur[0], cur[i]])
     for i in range(1, len(cur)):
         if cur[i] == "U": continue
         c = cur[:i] + cur[i + 1:]
@@ -690,6 +875,7 @@ def shrink_candidates(cur):
             for j in range(i, len(c)):
                 if c[j] == "U": c = c[:j] + c[j + 1:]; break
         cands.append(c)
+    if cur and cur[-1] == "U": cands.append(cur[:-1])
     for i, op in enumerate(cur):       # shorten strings
         a = op.split(",")
         if a[0] in "TCMmAPpB" and a[-1] not in ("-", "~"):
@@ -699,7 +885,7 @@ def shrink_candidates(cur):
                     cands.append(cur[:i] + [",".join(a[:-1] + [".".join(part)])] + cur[i + 1:])
     return cands
 
-def shrink_all(items, rounds=5):
+def shrink_all(items, rounds=8):
     """items: list of (meta, how).  Greedy removal of ops / shortening of strings while the same kind of failure
     persists; all witnesses are shrunk in lockstep so that each round is ONE parallel harness run.
     Returns list of (script, observation or None)."""
@@ -730,7 +916,7 @@ def shrink_all(items, rounds=5):
 KNOWN_KEYS = set()
 
 def tree_correspondence(ctx):
-    cases = gen_tree_cases(ctx) + gen_doc_cases(ctx)
+    cases = gen_long_tree_cases(ctx) + gen_tree_cases(ctx) + gen_ns_shadow_cases(ctx) + gen_doc_cases(ctx)
     lines = [c[0] for c in cases]
     io, err = run_hx(lines)
     hist = {}; byhaz = {}
@@ -783,6 +969,21 @@ def tree_correspondence(ctx):
             "what": "DOMLSSerializer round trip (%s, XML 1.%d, features %d) fails: %s — %s; tree: %s; observation: %s" % (
                 m["enc"], m["v11"], m["feat"], j[0], j[1][:160], describe(m)[:300], strip_bytes(o)[:300]),
             "replay": {"op": line, "impl": o[:2000], "judgement": list(j)}})
+    # the namespace fix-up model (XV.Model.NsFixup) against the declarations the real serializer wrote
+    nsx = [(line, m, o) for (line, m), o in zip(cases, io) if m["haz"] == "ns-shadow" and " y=" in o]
+    nf = run_model(["NF " + m["script"] for _, m, _ in nsx]) if nsx else []
+    nd = 0; first = None
+    for (line, m, o), mo in zip(nsx, nf):
+        y = dict(x.split("=", 1) for x in o.split() if "=" in x).get("y", "")
+        if mo != "unsupported" and mo != "ok " + y:
+            nd += 1
+            if first is None or len(line) < len(first[0]): first = (line, mo, "ok " + y)
+    ctx.stats["nsfixup_model"] = {"cases": len(nsx), "disagree": nd}
+    if first and not any(v["key"] == "nsfixup-binding-missing-or-wrong" for v in ctx.violations):
+        ctx.violations.append({"key": "corr:nsfixup", "concrete": False,
+            "what": "correspondence namespace fix-up model vs DOMLSSerializer no longer checks (%d cases), first: %s model=%s impl=%s" % (
+                nd, describe({"script": first[0].split()[4]})[:300], first[1][:200], first[2][:200]),
+            "replay": {"correspondence": "nsfixup", "case": first[0], "model": first[1], "impl": first[2]}})
     san = sanitizer_lines(err)
     for s in sorted(san):
         if "XMLFormatter" in s or "DOMLSSerializer" in s:
@@ -810,7 +1011,9 @@ def describe(m):
         a = op.split(",")
         def s(t):
             if t == "~": return "null"
-            return "'" + "".join(chr(u) if 32 <= u < 127 else "\\u%04X" % u for u in unhx(t)) + "'"
+            us = unhx(t)
+            if len(us) > 60: return "<" + brief(us) + ">"
+            return "'" + "".join(chr(u) if 32 <= u < 127 else "\\u%04X" % u for u in us) + "'"
         out.append(a[0] + "(" + ",".join(s(t) for t in a[1:]) + ")")
     return " ".join(out)
 
@@ -906,11 +1109,18 @@ def replay(ctx, path):
     if line.startswith(("FB", "FX")):
         f = line.split()
         print("input:", describe({"script": "T," + f[6]}))
+        if f[1] in INTRINSIC:
+            print("spec : reference escaping", run_model(["ES %s %s %s %s %s" % (f[1], f[2], f[3], f[4], f[6])])[0][:1000])
         if f[1] in INTRINSIC and f[0] == "FB":
             print("model:", run_model([line])[0][:1000])
         print("impl :", outs[0][:1000])
         canon, us = canon_impl_format(f[1], outs[0])
         print("impl (decoded units):", canon[:1000])
+        if us is not None and f[1] in INTRINSIC:
+            want = run_model(["ES %s %s %s %s %s" % (f[1], f[2], f[3], f[4], f[6])])[0]
+            print("lengths: input %d units, reference escaping %d units, implementation %d units%s" % (
+                len(unhx(f[6])), len(unhx(want.split()[1])) if want.startswith("ok ") else -1, len(us),
+                "" if want == canon else "  <-- DIFFERENT"))
         if us is not None and f[4] in ("2", "3"):
             print("spec : reader gives", run_model(["RD %s %d %s" % (f[2], 1 if f[4] == "2" else 0, hx(us))])[0][:1000], "for input", f[6])
     else:
@@ -921,6 +1131,10 @@ def replay(ctx, path):
         print("tree :", describe(m))
         print("impl :", strip_bytes(outs[0])[:1500])
         print("spec : judgement", judge_tree(m, outs[0]))
+        if f[0] == "T":
+            print("spec : expanded names stated by the recipe", parse_script(f[4])[1]["names"][:600])
+            nf = run_model(["NF " + f[4]])[0]
+            if nf != "unsupported": print("model: namespace declarations per element", nf[:600])
         if f[0] == "T":
             mo = run_model(["TS %s %s %d %s" % (f[1], f[2], int(f[3]) | ts_bits(), f[4])])[0]
             print("model:", mo[:1000] if mo != "bad-op" else "(tree outside the serializer model: namespaces / doctype)")
